@@ -25,6 +25,7 @@
 #include <geos/util/TopologyException.h>
 #include <geos/util/IllegalArgumentException.h>
 #include <cstdarg>
+#include <chrono>
 #include <fstream>
 #include <iostream>
 #include <execinfo.h>
@@ -739,7 +740,9 @@ int main(int argc, char** argv) {
                 if (!in.a) { out.count("skip_input_build_failed"); continue; }
                 long N = 0, N2 = 0;
                 Res warm = cleanRun(op, in, N, false);            // warm-up (lazy statics), also determinism probe
+                auto t0c = std::chrono::steady_clock::now();
                 Res clean = cleanRun(op, in, N2, true);
+                double cleanSecs = std::chrono::duration<double>(std::chrono::steady_clock::now() - t0c).count();
                 if (clean.err || warm.err) { out.count("skip_clean_error." + op); freeInput(in); continue; }
                 if (warm.bytes != clean.bytes || N != N2) { out.count("skip_nondeterministic." + op); freeInput(in); continue; }
                 out.count("N." + op + "." + nBucket(N)); out.count("Nall." + nBucket(N)); out.count("inputs." + op);
@@ -756,7 +759,11 @@ int main(int argc, char** argv) {
                 emit("clean", 0);
                 // (a dense-linework input costs seconds per interrupted run under ASan: it keeps the quick tier's number of interruption points in
                 // the thorough tier too — first / last / one middle occurrence of every poll context, 7 strata)
-                for (long k : pickK(r, N, thorough && !deep)) emit("at", k);
+                // an input whose uninterrupted run already takes seconds under ASan gets the quick tier's number of interruption points in the
+                // thorough tier too, and only five points (first, second, middle, last two) when it takes more than ten seconds
+                std::vector<long> ks = pickK(r, N, thorough && !deep && cleanSecs < 2.0);
+                if (cleanSecs > 10.0 && N > 5) { ks = {1, 2, (N + 1) / 2, N - 1, N}; out.count("slow_input_five_points"); }
+                for (long k : ks) emit("at", k);
                 emit("at", N + 1);
                 emit("pre", 0); emit("cancel", 0); emit("cbcancel", 1); emit("init", 0);
                 if (N >= 2) emit("cbcancel", 2);
